@@ -98,9 +98,10 @@ LawTol(law, width) ==
                 [] law = "jumpbelow" -> 0
                 [] law = "jumpabove" -> 1000
                 [] law = "roundtrip" -> 100000
+                [] law = "rowalone" -> 1000        \* traces evaluated together = each trace evaluated alone (row independence)
                 [] law = "unchanged" -> 0         \* disc = number of caller-owned arrays that differ after the call
   IN IF width = 32 /\ base > 0 THEN 100000000 ELSE base                     \* float32: 1e-4
-LawNames == {"wls", "fixed", "zerow", "exact", "fitxy", "tscoeff", "jumpbelow", "jumpabove", "roundtrip", "unchanged"}
+LawNames == {"wls", "fixed", "zerow", "exact", "fitxy", "tscoeff", "jumpbelow", "jumpabove", "roundtrip", "unchanged", "rowalone"}
 (* CallerArraysUnchanged ("unchanged"): every array the caller handed to func_fit (x, y, invvar, ia, inputans),  *)
 (* to TraceSet / xy2traceset (xpos, ypos, invvar, inmask), to traceset2xy (xpos, the coefficients) or to a basis  *)
 (* function (x) is bit-identical after the call.                                                                 *)
